@@ -37,6 +37,10 @@ def lin_strategy():
         'bscale': st.sampled_from([30.0, 10.0, 1.0]),
         'fscale': st.sampled_from([30.0, 10.0, 1.0]),
         'escale': st.sampled_from([100.0, 10.0, 1.0]),
+        # direction classes: rotation about one body coordinate axis (only one gyro column is ever non-zero: no coning, but the
+        # sculling term stays), no rotation at all, specific force along one coordinate axis
+        'wform': st.sampled_from(['general', 'general', 'general', 'single_axis', 'single_axis', 'zero']),
+        'fform': st.sampled_from(['general', 'general', 'single_axis']),
         'sub': st.integers(0, 2 ** 31 - 1),
     })
 
@@ -75,8 +79,17 @@ def run_linear(case, ctx):
     b = _unit(rng) * case['bscale'] * rng.uniform(0.3, 1)
     d = _unit(rng) * case['fscale'] * rng.uniform(0.3, 1)
     e = _unit(rng) * case['escale'] * rng.uniform(0.3, 1)
+    wform, fform = case.get('wform', 'general'), case.get('fform', 'general')
+    ax = np.eye(3)[case['sub'] % 3]
+    if wform == 'single_axis':
+        a, b = ax * np.linalg.norm(a) * np.sign(a[0]), ax * np.linalg.norm(b) * np.sign(b[0])
+    elif wform == 'zero':
+        a, b = np.zeros(3), np.zeros(3)
+    if fform == 'single_axis':
+        fx = np.eye(3)[(case['sub'] // 3) % 3]
+        d, e = fx * np.linalg.norm(d) * np.sign(d[0]), fx * np.linalg.norm(e) * np.sign(e[0])
     stype = case['sensor_type']
-    ctx.label(f'type={stype}', f"w={case['wscale']}", f"b={case['bscale']}")
+    ctx.label(f'type={stype}', f"w={case['wscale']}", f"b={case['bscale']}", f'rate_direction={wform}', f'force_direction={fform}')
     hs = LADDER[(np.linalg.norm(a) * LADDER + np.linalg.norm(b) * LADDER ** 2) <= 0.5]
     if len(hs) < 4:
         hs = LADDER[-4:]
@@ -86,6 +99,7 @@ def run_linear(case, ctx):
     rv, u, referr = RI.exact_increments(wf, ff, np.zeros(len(hs)), hs)
     th = np.empty((len(hs), 3))
     dv = np.empty((len(hs), 3))
+    handed_out = []
     for k, h in enumerate(hs):
         if stype == 'rate':
             rows = [np.hstack([a, d]), np.hstack([a + b * h, d + e * h])]
@@ -97,6 +111,12 @@ def run_linear(case, ctx):
         ctx.check(len(inc) == 1 and inc.index[0] == h and inc['dt'].iloc[0] == h, 'table', str(inc))
         th[k] = inc[['theta_x', 'theta_y', 'theta_z']].values[0]
         dv[k] = inc[['dv_x', 'dv_y', 'dv_z']].values[0]
+        handed_out.append(inc)
+    # a table handed out earlier is the caller's: later calls (here: with tables of the same shape) must not change it
+    for k, inc in enumerate(handed_out):
+        ctx.check(inc['dt'].iloc[0] == hs[k] and bits_equal(inc[['theta_x', 'theta_y', 'theta_z']].values[0], th[k])
+                  and bits_equal(inc[['dv_x', 'dv_y', 'dv_z']].values[0], dv[k]), 'earlier_result_changed',
+                  lambda: f'the increments returned for h={hs[k]} changed after later calls: {inc.values.tolist()}')
     et = np.linalg.norm(np.asarray(th - rv, float), axis=1)
     res = np.asarray(dv - u, float)
     cubic = -np.cross(a, np.cross(a, d))[None, :] * (hs ** 3)[:, None] / 6
@@ -117,9 +137,12 @@ def run_linear(case, ctx):
     vis = np.linalg.norm(cubic, axis=1) > 10 * evc
     if vis.any():
         ctx.label('cubic_term_visible')
-    axb = np.linalg.norm(np.cross(a, b)) / (np.linalg.norm(a) * np.linalg.norm(b))
-    sc = np.linalg.norm(np.cross(a, e) + np.cross(d, b)) / (np.linalg.norm(a) * np.linalg.norm(e) + np.linalg.norm(d) * np.linalg.norm(b))
-    ctx.mark_nontrivial(ok1 and ok2 and axb > 0.01 and sc > 0.01)
+    axb = np.linalg.norm(np.cross(a, b)) / max(np.linalg.norm(a) * np.linalg.norm(b), 1e-300)
+    sc = np.linalg.norm(np.cross(a, e) + np.cross(d, b)) / max(np.linalg.norm(a) * np.linalg.norm(e) + np.linalg.norm(d) * np.linalg.norm(b), 1e-300)
+    if wform == 'general':
+        ctx.mark_nontrivial(ok1 and ok2 and axb > 0.01 and sc > 0.01)
+    else:       # single-axis rotation: no coning by construction; non-trivial when the sculling term is there
+        ctx.mark_nontrivial(bool(ok2 and wform == 'single_axis' and sc > 0.01))
 
 
 def sin_strategy():
@@ -247,6 +270,12 @@ def run_table(case, ctx):
         # allowed for implementations that order their arithmetic differently for the two dtypes
         ctx.check(inc.values.dtype == np.float64 and np.abs(inc.values - flt.values).max() <= 16 * np.spacing(np.abs(flt.values).max()), 'dtype_dependent',
                   lambda: f'integer-typed {ints} columns: max difference to the same values as float64 {np.abs(inc.values.astype(float) - flt.values).max():.3e}')
+    # a result handed out earlier is not touched by a later call on a different table of the same shape
+    inc_snap = inc.copy()
+    other = as_float[COLS] * 0.5 + 1.0
+    strapdown.compute_increments_from_imu(other, case['sensor_type'])
+    ctx.check(bits_equal(inc.values, inc_snap.values) and inc.index.equals(inc_snap.index), 'earlier_result_changed',
+              'the returned table changed when the function was called again with another table of the same length')
     # columns are addressed by label: the same table in another column order gives the same result
     ref_inc = strapdown.compute_increments_from_imu(canonical, case['sensor_type'])
     ctx.check(bits_equal(inc.values, ref_inc.values), 'column_order_dependent', 'result depends on the order of the labelled IMU columns')
